@@ -137,7 +137,8 @@ var (
 		tokenconvertermoduletypes.ModuleName,
 		liquiditypoolmoduletypes.ModuleName,
 		liquidityincentivemoduletypes.ModuleName,
-		swapmoduletypes.ModuleName,
+		// swapmoduletypes.ModuleName is not blocked: the IBC swap middleware has the transfer
+		// application deliver the funds of an incoming swap packet to the swap module account.
 		feemoduletypes.ModuleName,
 	}
 
